@@ -133,6 +133,24 @@ def run(tier, seed):
         il = impl.verify_auth(pol0, t)
         chk.evals += 1
         judge(il, "credential-text-with-number " + num[:8], {"entry": "verify_authentication_response", "text": t[:300], "text_length": len(t), "impl": il})
+    # dict-form credentials with an (ignored) member nested to any depth - a dict is not parsed, so nothing here needs the interpreter's stack; also through verification
+    for depth in (50, 400, 700, 990, 1500, 5000):
+        for shape in ("list", "dict", "mixed"):
+            v = "leaf"
+            for i_ in range(depth):
+                v = [v] if shape == "list" or (shape == "mixed" and i_ % 2) else {"n": v}
+            for kind, base in (("auth", base_a), ("reg", base_r)):
+                d = dict(base, clientExtensionResults=v)
+                il = (impl.parse_auth_cred if kind == "auth" else impl.parse_reg_cred)(d)
+                chk.evals += 1
+                if not il.startswith("OK") and not il.startswith("ERR Lib:"):
+                    chk.violation(f"credential dict with an ignored member nested {depth} levels deep is refused with a non-library exception: {il}", f"nonlib-parser {kind}-json-depth {il}",
+                                  {"entry": f"parse_{kind}_credential_json", "nesting_depth": depth, "shape": shape, "impl": il, "credential_without_the_nested_member": base})
+            d = dict(a0.as_dict(), clientExtensionResults=v)
+            il = impl.verify_auth(pol0, d)
+            chk.evals += 1
+            judge(il, f"credential-dict-nested-{depth}", {"entry": "verify_authentication_response", "nesting_depth": depth, "shape": shape, "impl": il})
+            del d, v
     for i in range(300 if quick else 20000):
         kind, base = rng.choice((("auth", base_a), ("reg", base_r)))
         d = jsonmut.mutate(base, rng)
